@@ -87,7 +87,7 @@ impl Prop for C11 {
     }
     fn runs(&self, tier: Tier) -> u64 {
         match tier {
-            Tier::Quick => 1280,
+            Tier::Quick => 2560,
             Tier::Thorough => 12000,
         }
     }
@@ -127,7 +127,7 @@ impl Prop for C11 {
         c
     }
     fn rule(&self) -> String {
-        "case = seeded preparation history, then a set of 2-4 concurrent requests (explorer reads incl. eth_getBlockByHash / debug_getRaw*(hash) / eth_call / eth_getLogs / txpool_*, and indexer writes deposit / call / deploy / finalise / mine / commit / clearCaches / reorg / transact) executed by real threads on the shared engine. Every SharedData acquire and release (engine database lock, block-under-construction lock, CONFIG) is a scheduling point at which exactly one thread is released, chosen by the seed (6 request sets with one seeded schedule each per run); the admission rule is std's writer-preferring RwLock (reader admitted iff no writer holds and none is queued; writer iff nobody holds), and the real try_read/try_write must then succeed. Violation = a state in which no thread is admissible although not all have finished (reported with the wait-for description and the schedule that reaches it), a request that never completes, or a failed liveness probe afterwards. distinct = sha256 of (ops, request set); states = distinct schedules (hash of the decision sequence); non-trivial = at least one writer and one reader were interleaved (>= 6 scheduling decisions)".into()
+        "case = seeded preparation history, then a set of 2-4 concurrent requests (explorer reads incl. eth_getBlockByHash / debug_getRaw*(hash) / eth_call / eth_getLogs / txpool_*, and indexer writes deposit / call / deploy / finalise / mine / commit / clearCaches / reorg / transact) executed by real threads on the shared engine. Every SharedData acquire and release (engine database lock, block-under-construction lock, CONFIG) is a scheduling point at which exactly one thread is released, chosen by the seed (6 request sets with one seeded schedule each per run, alternating between a uniform choice at every event and PCT-style random priorities with 1-3 priority change points); the admission rule is std's writer-preferring RwLock (reader admitted iff no writer holds and none is queued; writer iff nobody holds), and the real try_read/try_write must then succeed. Violation = a state in which no thread is admissible although not all have finished (reported with the wait-for description and the schedule that reaches it), a request that never completes, or a failed liveness probe afterwards. distinct = sha256 of (ops, request set); states = distinct schedules (hash of the decision sequence); non-trivial = at least one writer and one reader were interleaved (>= 6 scheduling decisions)".into()
     }
     fn assumptions(&self) -> Vec<String> {
         vec![
@@ -169,7 +169,9 @@ impl Prop for C11 {
                 }
                 let Some(methods) = w.inst.methods_clone() else { break };
                 let seed = case["schedule_seed"].as_u64().unwrap_or(1) ^ (round.wrapping_mul(0x9E37_79B9));
-                let sched = Arc::new(Sched::new(k, seed, pinned.clone()));
+                // odd rounds use PCT-style priorities with 1-3 change points, even rounds a uniform choice
+                let pct = if round % 2 == 1 { Some(1 + round % 3) } else { None };
+                let sched = Arc::new(Sched::new(k, seed, pinned.clone(), pct));
                 brc20_prog::verif::sync::set_scheduler(Some(sched.clone()));
                 let mut handles = vec![];
                 let hash_seed = sc.hash_seed;
